@@ -1,4 +1,5 @@
 import ZenonVerif.Lemmas.LedgerInbox
+import ZenonVerif.Lemmas.LedgerTokenInbox
 import ZenonVerif.Lemmas.LedgerDemo
 /-
 C09 — every accepted call to an embedded contract completes or refunds; the inbox cannot be wedged.
@@ -27,7 +28,7 @@ theorem complete_or_refund (s s' : State) (c : Addr) (h : Hash) (st : Nat) (ds :
       (st = 1 ∨ (st = 2 ∧ descShape ds = refundOf snd ∧ s'.toks = s.toks ∧
                  ∀ t, getBal s'.bal c t = getBal s.bal c t)) := by
   cases crecv_cases hok with
-  | plain nxt snd _ _ hchk hst href _ hds =>
+  | plain nxt snd _ _ hchk hst href _ _ hds =>
     refine ⟨snd, hchk, ?_⟩
     rcases hst with h1 | h2
     · exact Or.inl h1
@@ -52,7 +53,7 @@ theorem contract_balance_delta (s s' : State) (c : Addr) (h : Hash) (st : Nat) (
           ∀ t, getBal s'.bal c t + descSum ds t + (if out.mintTok = t then out.burn else 0)
              = getBal s.bal c t + (if snd.tok = t then snd.amt else 0) + (if out.mintTok = t then out.mint else 0))) := by
   cases crecv_cases hok with
-  | plain nxt snd _ _ hchk _ _ _ hds =>
+  | plain nxt snd _ _ hchk _ _ _ _ hds =>
     exact ⟨snd, hchk, (balance_plain hds).2, Or.inl ⟨(applyDescs_frame hds).2.1, (balance_plain hds).1⟩⟩
   | token nxt snd out _ _ hchk hc hst hm hshape hburn hds =>
     exact ⟨snd, hchk, (balance_token hburn hds).2,
@@ -65,7 +66,7 @@ theorem generic_contract_balance_delta (s s' : State) (c : Addr) (h : Hash) (st 
     ∃ snd, checkFrom s c h = .ok snd ∧ s'.toks = s.toks ∧
       ∀ t, getBal s'.bal c t + descSum ds t = getBal s.bal c t + (if snd.tok = t then snd.amt else 0) := by
   cases crecv_cases hok with
-  | plain nxt snd _ _ hchk _ _ _ hds => exact ⟨snd, hchk, (applyDescs_frame hds).2.1, (balance_plain hds).1⟩
+  | plain nxt snd _ _ hchk _ _ _ _ hds => exact ⟨snd, hchk, (applyDescs_frame hds).2.1, (balance_plain hds).1⟩
   | token nxt snd out _ _ _ hc' _ _ _ _ _ => exact absurd hc' hc
 
 /-- T1, funding: every descendant of an accepted receive passed `applySend` on a balance that covers it
@@ -112,7 +113,12 @@ theorem received_not_next (s s' : State) (c : Addr) (h : Hash) (st : Nat) (ds : 
     the exact refund: the `fromHash` checks pass (it is the unique confirmed send with that hash, addressed to `c`, not
     yet received by `c`), and the refund descendant is always funded — the amount was credited by this very receive, and
     a zero-token send carries no amount. This is the model-level reason why no accepted call can wedge an inbox:
-    whatever the method does, the VM's fallback is accepted. -/
+    whatever the method does, the VM's fallback is accepted.
+    Caveat (model vs. Go): Go's `applySend` additionally runs the method lookup / `ValidateSendBlock` of the
+    *destination* when it is an embedded contract; the model's `applySend` does not. The refund block has empty call
+    data, so when the sender `nxt.src` of the failed call is itself an embedded contract the Go refund is refused with
+    `ErrContractMethodNotFound` and `rollbackEmbedded` returns an error. The theorem transfers to the code for
+    non-embedded senders only. -/
 theorem refund_always_possible (s : State) (c : Addr) (nxt : Send) (h' : Hash) (hw : WF s)
     (hc : c ≠ tokenContract) (hnext : nextInLine s c = some nxt) :
     ∃ s', crecv s c nxt.hash 2 (refundDescs nxt h') = .ok s' :=
@@ -122,16 +128,30 @@ theorem refund_always_possible (s : State) (c : Addr) (nxt : Send) (h' : Hash) (
     and well-formed (the argument can be repeated for the next queued call). -/
 theorem refund_step_admissible (s : State) (c : Addr) (nxt : Send) (h' : Hash)
     (hfresh : h' ∉ s.sends.map (·.hash)) : Admissible s (.crecv c nxt.hash 2 (refundDescs nxt h')) := by
-  unfold refundDescs
-  split
-  · refine ⟨⟨by simp [Ev.newHashes], ?_⟩, ?_⟩
-    · intro h hh
-      simp only [Ev.newHashes, List.map_cons, List.map_nil, List.mem_singleton] at hh
-      subst hh; exact hfresh
-    · intro cl hcl
-      simp only [Ev.newCalls, List.map_cons, List.map_nil, List.mem_singleton] at hcl
-      subst hcl; trivial
-  · exact ⟨⟨by simp [Ev.newHashes], by simp [Ev.newHashes]⟩, by simp [Ev.newCalls]⟩
+  apply admissible_of_single hfresh
+  · unfold refundDescs; split <;> simp
+  · unfold refundDescs; split <;> simp
+
+/-- The token contract (whose methods are modelled): whatever send is next in line, some outcome is accepted — the call
+    is applied (issue with an unused token standard, mint, burn, update) or, when the method fails, refunded — by an
+    admissible event, provided the zero token standard has no storage entry. -/
+theorem token_inbox_not_wedged (s : State) (nxt : Send) (h' : Hash) (hw : WF s)
+    (hz : getTok s.toks zeroTok = none) (hfresh : h' ∉ s.sends.map (·.hash))
+    (hnext : nextInLine s tokenContract = some nxt) :
+    ∃ st ds s', Admissible s (.crecv tokenContract nxt.hash st ds) ∧
+      crecv s tokenContract nxt.hash st ds = .ok s' := by
+  obtain ⟨st, ds, s', hok, hlen, hall⟩ := token_receive_possible hw hz hnext h'
+  exact ⟨st, ds, s', admissible_of_single hfresh hlen hall, hok⟩
+
+/-- Negative witness for the hypothesis `getTok s.toks zeroTok = none`: the model takes the new token standard of an
+    issue from the observed descendant and so accepts an issue of the zero token standard with total supply 0; in the
+    reachable state after it, a queued mint of that "token" has no accepted outcome at all (applying needs a non-empty
+    zero-token send, refunding needs the method to fail). Go derives the token standard from the send hash, so this is a
+    permissiveness of the model, not a behaviour of the code. -/
+theorem zero_token_issue_wedges_model :
+    Reach (State.init true) wedgeState ∧ (nextInLine wedgeState tokenContract).map (·.hash) = some 102 ∧
+    ∀ st ds s', crecv wedgeState tokenContract 102 st ds ≠ .ok s' :=
+  ⟨wedge_reachable, rfl, wedge_no_outcome⟩
 
 /-! ## non-vacuity -/
 
@@ -152,6 +172,11 @@ example : Admissible demoFinal (.crecv 3 108 2 (refundDescs ⟨108, 16, 3, 5, 1,
 example : (do let s1 ← usend (State.init true) 16 tokenContract zeroTok 0 100 (.issue 50 80 true true)
               let s2 ← crecv s1 tokenContract 100 1 [⟨16, 5, 50, 101, .none⟩]
               pure (getBal s2.bal tokenContract 5, supplyOf s2 5, inflightSum s2 5)) = Except.ok (0, 50, 50) := by rfl
+
+/-- the hypotheses of `token_inbox_not_wedged` hold in the demo state with a queued burn -/
+example : (do let s1 ← usend demoFinal 16 tokenContract 5 3 110 .burn
+              pure (decide (WF s1), getTok s1.toks zeroTok, (nextInLine s1 tokenContract).map (·.hash)))
+          = Except.ok (true, none, some 110) := by rfl
 
 /-- a wrong refund (amount 1 instead of 2) is not an accepted outcome -/
 example : (do let s1 ← usend { State.init true with bal := [((16, 5), 9)] } 16 3 5 2 105 .none
